@@ -39,19 +39,115 @@ func sortedKeys(m map[string]any) []string {
 	return ks
 }
 
+// norm brings a typed map (map[string]string) to the generic form map[string]any; nested
+// values are normalised as well. Strings and generic maps are returned as they are.
+func norm(x any) any {
+	switch t := x.(type) {
+	case map[string]string:
+		m := make(map[string]any, len(t))
+		for k, v := range t {
+			m[k] = v
+		}
+		return m
+	case map[string]any:
+		typed := false
+		for _, v := range t {
+			if _, ok := v.(map[string]string); ok {
+				typed = true
+			}
+			if _, ok := v.(map[string]any); ok {
+				typed = true
+			}
+		}
+		if !typed {
+			return t
+		}
+		m := make(map[string]any, len(t))
+		for k, v := range t {
+			m[k] = norm(v)
+		}
+		return m
+	}
+	return x
+}
+
+// ent is one entry of a flattened (possibly nested) map: the path of keys that leads to it,
+// and either a string leaf or the marker "a map sits here" (emitted for every nested map,
+// empty or not). The model (Model/StreamOps.v) represents a map by this entry list.
+type ent struct {
+	path []int
+	mark bool
+	val  string
+}
+
+// order of the model's keys: at the first difference of the two paths the smaller key
+// number wins; a path that ends sorts before one that goes on; at equal paths the map
+// marker sorts before the string leaf.
+func entLess(a, b ent) bool {
+	for i := 0; ; i++ {
+		ae, be := i >= len(a.path), i >= len(b.path)
+		switch {
+		case ae && be:
+			return a.mark && !b.mark
+		case ae:
+			return true
+		case be:
+			return false
+		case a.path[i] != b.path[i]:
+			return a.path[i] < b.path[i]
+		}
+	}
+}
+
+func flattenInto(prefix []int, m map[string]any, out *[]ent) {
+	for k, v := range m {
+		p := append(append([]int(nil), prefix...), keyNum(k))
+		switch t := norm(v).(type) {
+		case string:
+			*out = append(*out, ent{path: p, val: t})
+		case map[string]any:
+			*out = append(*out, ent{path: p, mark: true})
+			flattenInto(p, t, out)
+		default:
+			*out = append(*out, ent{path: p, val: fmt.Sprintf("<unrenderable %T>", v)})
+		}
+	}
+}
+
+func flatten(m map[string]any) []ent {
+	var out []ent
+	flattenInto(nil, m, &out)
+	sort.Slice(out, func(i, j int) bool { return entLess(out[i], out[j]) })
+	return out
+}
+
+func pathStr(p []int) string {
+	parts := make([]string, len(p))
+	for i, k := range p {
+		parts[i] = keyStr(k)
+	}
+	return strings.Join(parts, ".")
+}
+
+// render: every entry of the flattened map in the model's order; "k=v;" for a string leaf
+// (path components joined by "."), "k/;" for the marker of a nested map.
 func render(m map[string]any) string {
 	var b strings.Builder
-	for _, k := range sortedKeys(m) {
-		b.WriteString(k)
-		b.WriteString("=")
-		b.WriteString(m[k].(string))
-		b.WriteString(";")
+	for _, e := range flatten(m) {
+		b.WriteString(pathStr(e.path))
+		if e.mark {
+			b.WriteString("/;")
+		} else {
+			b.WriteString("=")
+			b.WriteString(e.val)
+			b.WriteString(";")
+		}
 	}
 	return b.String()
 }
 
 // the harness's own concatenation (what a hand-written Collect / Transform lambda does
-// with its input chunks); independent of eino's.
+// with its input chunks); independent of eino's. Maps are merged key by key, recursively.
 func concatAny(chunks []any) (any, error) {
 	if len(chunks) == 0 {
 		return nil, errors.New("node: empty input stream")
@@ -63,34 +159,60 @@ func concatAny(chunks []any) (any, error) {
 	case string:
 		var b strings.Builder
 		for _, c := range chunks {
-			b.WriteString(c.(string))
+			s, ok := c.(string)
+			if !ok {
+				return nil, fmt.Errorf("node: chunk types differ: string, %T", c)
+			}
+			b.WriteString(s)
 		}
 		return b.String(), nil
-	case map[string]any:
-		out := map[string]any{}
+	case map[string]string:
+		out := map[string]string{}
 		for _, c := range chunks {
-			m := c.(map[string]any)
-			for k, v := range m {
-				if old, ok := out[k]; ok {
-					out[k] = old.(string) + v.(string)
-				} else {
-					out[k] = v.(string)
-				}
+			m, ok := c.(map[string]string)
+			if !ok {
+				return nil, fmt.Errorf("node: chunk types differ: map[string]string, %T", c)
 			}
+			for k, v := range m {
+				out[k] += v
+			}
+		}
+		return out, nil
+	case map[string]any:
+		groups := map[string][]any{}
+		for _, c := range chunks {
+			m, ok := c.(map[string]any)
+			if !ok {
+				return nil, fmt.Errorf("node: chunk types differ: map[string]any, %T", c)
+			}
+			for k, v := range m {
+				groups[k] = append(groups[k], v)
+			}
+		}
+		out := map[string]any{}
+		for k, vs := range groups {
+			v, err := concatAny(vs)
+			if err != nil {
+				return nil, err
+			}
+			out[k] = v
 		}
 		return out, nil
 	}
 	return nil, fmt.Errorf("node: unsupported chunk type %T", chunks[0])
 }
 
+// size: for a string its length; for a map the number of entries of its flattened form
+// plus the lengths of the string leaves
 func sizeVal(x any) int {
-	switch t := x.(type) {
+	switch t := norm(x).(type) {
 	case string:
 		return len(t)
 	case map[string]any:
-		n := len(t)
-		for _, v := range t {
-			n += len(v.(string))
+		es := flatten(t)
+		n := len(es)
+		for _, e := range es {
+			n += len(e.val)
 		}
 		return n
 	}
@@ -120,6 +242,32 @@ func splitStr(pol int, s string) []string {
 	return []string{s}
 }
 
+// perKey: one chunk per key of a nested map value (of the same Go type); an empty map is
+// one empty chunk
+func perKey(v any) []any {
+	switch t := v.(type) {
+	case map[string]string:
+		if len(t) == 0 {
+			return []any{map[string]string{}}
+		}
+		var out []any
+		for _, k := range sortedKeys(norm(t).(map[string]any)) {
+			out = append(out, map[string]string{k: t[k]})
+		}
+		return out
+	case map[string]any:
+		if len(t) == 0 {
+			return []any{map[string]any{}}
+		}
+		var out []any
+		for _, k := range sortedKeys(t) {
+			out = append(out, map[string]any{k: t[k]})
+		}
+		return out
+	}
+	panic("harness: perKey on a non-map")
+}
+
 func splitMap(pol int, m map[string]any) []map[string]any {
 	ks := sortedKeys(m)
 	switch pol {
@@ -133,14 +281,20 @@ func splitMap(pol int, m map[string]any) []map[string]any {
 		}
 		return out
 	case 2:
+		// a string value in two halves, a nested map key by key
 		if len(ks) == 0 {
 			return []map[string]any{{}}
 		}
 		var out []map[string]any
 		for _, k := range ks {
-			v := m[k].(string)
-			h := len(v) / 2
-			out = append(out, map[string]any{k: v[:h]}, map[string]any{k: v[h:]})
+			if v, ok := m[k].(string); ok {
+				h := len(v) / 2
+				out = append(out, map[string]any{k: v[:h]}, map[string]any{k: v[h:]})
+				continue
+			}
+			for _, c := range perKey(m[k]) {
+				out = append(out, map[string]any{k: c})
+			}
 		}
 		return out
 	case 3:
@@ -169,6 +323,22 @@ func splitVal(pol int, y any) []any {
 	panic("harness: bad value")
 }
 
+// conv hands a value of the harness (string, map[string]any) over at the static type O of
+// a lambda: as it is, or as a map[string]string when the lambda is declared with that type
+func conv[O any](y any) O {
+	if v, ok := y.(O); ok {
+		return v
+	}
+	if m, ok := y.(map[string]any); ok {
+		ms := make(map[string]string, len(m))
+		for k, v := range m {
+			ms[k] = v.(string)
+		}
+		return any(ms).(O)
+	}
+	panic(fmt.Sprintf("harness: cannot hand %T over as %T", y, *new(O)))
+}
+
 // ---------------------------------------------------------------- specs
 
 type NSpec struct {
@@ -187,6 +357,11 @@ type NSpec struct {
 	// dynamic type error.
 	AnyOut bool `json:"anyout,omitempty"`
 	AnyMap bool `json:"anymap,omitempty"`
+	// TOut / TIn: the lambda's static map type is map[string]string instead of map[string]any
+	// (output of the kinds 2 and 3 under an output key; input of the kinds 1 and 3 behind an
+	// input key whose value is such a map). What the node computes does not depend on it.
+	TOut bool `json:"tout,omitempty"`
+	TIn  bool `json:"tin,omitempty"`
 }
 
 // the type the consumers of the node see
@@ -205,6 +380,7 @@ func (sp *NSpec) isLive() bool { return sp.Live && (sp.Kind == 0 || sp.Kind == 2
 var errNode = errors.New("node chosen to fail")
 
 func fSpec(sp *NSpec, x any) (any, error) {
+	x = norm(x)
 	switch sp.Kind {
 	case 0:
 		return sp.tag() + "(" + x.(string) + ")", nil
@@ -285,7 +461,7 @@ func mkStream[O any](items []sitem, pipe int) *schema.StreamReader[O] {
 	if pipe == 0 && !hasErr {
 		arr := make([]O, len(items))
 		for i, it := range items {
-			arr[i] = it.v.(O)
+			arr[i] = conv[O](it.v)
 		}
 		return schema.StreamReaderFromArray(arr)
 	}
@@ -299,7 +475,7 @@ func mkStream[O any](items []sitem, pipe int) *schema.StreamReader[O] {
 		for _, it := range items {
 			var v O
 			if it.err == nil {
-				v = it.v.(O)
+				v = conv[O](it.v)
 			}
 			if sw.Send(v, it.err) {
 				return
@@ -344,7 +520,7 @@ func natives[I, O any](sp *NSpec, rec *recorder) (compose.Invoke[I, O, any], com
 			if err != nil {
 				return zero, err
 			}
-			return y.(O), nil
+			return conv[O](y), nil
 		}
 	}
 	if sp.Nat[1] {
@@ -378,7 +554,7 @@ func natives[I, O any](sp *NSpec, rec *recorder) (compose.Invoke[I, O, any], com
 			if err != nil {
 				return zero, err
 			}
-			return y.(O), nil
+			return conv[O](y), nil
 		}
 	}
 	if sp.Nat[3] {
@@ -417,7 +593,7 @@ func natives[I, O any](sp *NSpec, rec *recorder) (compose.Invoke[I, O, any], com
 				for _, it := range emit(sp, y) {
 					var v O
 					if it.err == nil {
-						v = it.v.(O)
+						v = conv[O](it.v)
 					}
 					if sw.Send(v, it.err) {
 						return
@@ -442,7 +618,7 @@ func liveT[I, O any](sp *NSpec, in *schema.StreamReader[I], sw *schema.StreamWri
 	} else {
 		pre, suf = map[string]any{keyStr(sp.K1): sp.tag() + "<"}, map[string]any{keyStr(sp.K2): ">"}
 	}
-	if sw.Send(pre.(O), nil) {
+	if sw.Send(conv[O](pre), nil) {
 		return
 	}
 	if sp.Fail == 2 {
@@ -469,11 +645,11 @@ func liveT[I, O any](sp *NSpec, in *schema.StreamReader[I], sw *schema.StreamWri
 			}
 			out = m
 		}
-		if sw.Send(out.(O), nil) {
+		if sw.Send(conv[O](out), nil) {
 			return
 		}
 	}
-	sw.Send(suf.(O), nil)
+	sw.Send(conv[O](suf), nil)
 }
 
 func mkLambdaT[I, O any](sp *NSpec, rec *recorder) *compose.Lambda {
@@ -500,21 +676,24 @@ func mkLambdaT[I, O any](sp *NSpec, rec *recorder) *compose.Lambda {
 	return l
 }
 
+func mkLambdaI[I any](sp *NSpec, rec *recorder) *compose.Lambda {
+	switch {
+	case sp.AnyOut:
+		return mkLambdaT[I, any](sp, rec)
+	case !sp.outMap():
+		return mkLambdaT[I, string](sp, rec)
+	case sp.TOut:
+		return mkLambdaT[I, map[string]string](sp, rec)
+	}
+	return mkLambdaT[I, map[string]any](sp, rec)
+}
+
 func mkLambda(sp *NSpec, rec *recorder) *compose.Lambda {
-	if sp.AnyOut {
-		if sp.inMap() {
-			return mkLambdaT[map[string]any, any](sp, rec)
-		}
-		return mkLambdaT[string, any](sp, rec)
+	switch {
+	case !sp.inMap():
+		return mkLambdaI[string](sp, rec)
+	case sp.TIn:
+		return mkLambdaI[map[string]string](sp, rec)
 	}
-	switch sp.Kind {
-	case 0:
-		return mkLambdaT[string, string](sp, rec)
-	case 1:
-		return mkLambdaT[map[string]any, string](sp, rec)
-	case 2:
-		return mkLambdaT[string, map[string]any](sp, rec)
-	default:
-		return mkLambdaT[map[string]any, map[string]any](sp, rec)
-	}
+	return mkLambdaI[map[string]any](sp, rec)
 }
